@@ -110,6 +110,7 @@ def run_property(prop, tier='quick', seed=0, jobs=None, rebaseline=False, only=N
         print('no function under contract serves %s' % prop)
         return 3
     nproc = jobs or min(16, len(todo), os.cpu_count() or 4)
+    os.environ['PYVC_INNER_JOBS'] = str(max(1, min(8, (os.cpu_count() or 4) // 2)))     # only functions with many queries fork
     if nproc > 1:
         ctx = multiprocessing.get_context('fork')
         with ctx.Pool(nproc) as pool:
